@@ -103,6 +103,13 @@ var c07Items = []c07Item{
 		b, ok2 := agg1(ref.Sum, g.W2)
 		return a - b, ok && ok2
 	}},
+	// the very same call written twice in one item
+	{"(max(v) - min(v)) / (max(v) + 1) AS rr", "rr", func(g c07Group) (float64, bool) {
+		a, ok := agg1(ref.Max, g.V)
+		b, _ := agg1(ref.Min, g.V)
+		return (a - b) / (a + 1), ok
+	}},
+	{"sum(v) * sum(v) AS sq", "sq", func(g c07Group) (float64, bool) { a, ok := agg1(ref.Sum, g.V); return a * a, ok }},
 }
 
 type c07Having struct {
@@ -231,7 +238,7 @@ func hasAll(items []int, need []int) bool {
 }
 
 func c07Progs(tier string) []c07Prog {
-	itemSets := [][]int{{0}, {1}, {2}, {3}, {4}, {5}, {6}, {8}, {9}, {10}, {11}, {12}, {13}, {14}, {0, 7}, {0, 1, 4}, {7, 0, 2}, {0, 6, 7}, {8, 4}, {14, 0}, {9, 10, 12}, {11, 0}, {13, 5}}
+	itemSets := [][]int{{0}, {1}, {2}, {3}, {4}, {5}, {6}, {8}, {9}, {10}, {11}, {12}, {13}, {14}, {0, 7}, {0, 1, 4}, {7, 0, 2}, {0, 6, 7}, {8, 4}, {14, 0}, {9, 10, 12}, {11, 0}, {13, 5}, {15}, {16}, {15, 0, 16}}
 	var out []c07Prog
 	for _, its := range itemSets {
 		for h := range c07Havings {
@@ -512,9 +519,14 @@ type c07 struct{}
 
 func (c07) ID() string { return "C07" }
 
-func (c07) Plan(tier string) []fw.Unit { return planEnum("C07", tier, 1, 16) }
+func (c07) Plan(tier string) []fw.Unit {
+	return append(planEnum("C07", tier, 1, 16), fw.Unit{Check: "C07", Kind: "batches", Tier: tier, Spec: fw.Spec(enumSpec{})})
+}
 
 func (c07) Run(u fw.Unit) fw.Result {
+	if u.Kind == "batches" {
+		return c07Batches(u.Tier)
+	}
 	sp := parseEnum(u)
 	a := newAcc("C07", "det-postagg")
 	progs := c07Progs(u.Tier)
